@@ -42,8 +42,8 @@ PROPS = {
         not_covered='default Stream::{len,force,pythonic_slice,reversed}, lazy adaptors, combinatorial streams, infinite streams',
     ),
     'C16': dict(
-        units=['display'],
-        not_covered='parse_decimal_exactly/parse_rational_exactly, int(str(n)), str_radix/int_radix, hex/base64/utf8/gzip/json codecs, chr/ord, repr',
+        units=['display', 'radix'],
+        not_covered='parse_decimal_exactly/parse_rational_exactly, int(str(n)), hex/base64/utf8/gzip/json codecs, chr/ord, repr',
     ),
     'C14': dict(
         units=['index', 'nint', 'nnum', 'nnumcmp', 'builtins', 'istype', 'rangeu'],
